@@ -21,7 +21,7 @@ LEVEL_TEXT = ("Seeded exploration of the work-conservation clauses at every work
               "(gates open, eligible, can still accept) computed independently from the model data and live snapshots.")
 LEVEL_NOTE = "Trusted: independent eligibility / can-accept predicates; refusals are monotone within one greedy allocation pass; sampling evidence only."
 PROBES = ["free_worker_with_open_task", "gate_opened_FS", "gate_opened_SS", "ss_pred_finished_before_successor_ready",
-          "auto_task_started", "idle_refused_solo", "idle_refused_ineligible", "pair_candidate_checked"]
+          "auto_task_started", "idle_refused_solo", "idle_refused_ineligible", "pair_candidate_checked", "unplaced_component_checked"]
 
 
 def budget(tier):
@@ -143,6 +143,43 @@ def check_trace(res, tr):
                 if cid is None or len(st.comp_tasks[cid]) != 1:
                     continue
                 placed = A["C"][cid][1]
+                if placed is None and AT[tid][0] == READY and not AT[tid][2] and not st.parents.get(cid) and not st.children.get(cid):
+                    # the component is nowhere although its only task is READY: placing it is part of the allocation.  Claimed when
+                    # every workplace that could host the task (targets it, has a skilled facility) had room for the component
+                    # throughout this allocation (occupancy at its start and at its end taken together: a component moves at most
+                    # once per step) and offers an idle eligible pair.  An unplaced component may enter a workplace with inputs.
+                    size = st.comps[cid].get("size", 1.0)
+                    hosts = [wid_ for wid_ in st.wp_order if tid in st.wp_targets[wid_]
+                             and any(st.f_skill(f_["id"], tid) > TOL for f_ in st.wp[wid_]["facs"])]
+                    all_ok = bool(hosts)
+                    witness = None
+                    for wid_ in hosts:
+                        occ = set(U["P"].get(wid_, ())) | set(A["P"].get(wid_, ()))
+                        used = sum(st.comps[c_].get("size", 1.0) for c_ in occ if c_ in st.comps)
+                        if not (st.wp[wid_].get("cap", 1.0) - used > size - 1e-8 + 1e-9):
+                            all_ok = False
+                            break
+                        pair = None
+                        for f in [x["id"] for x in st.wp[wid_]["facs"]]:
+                            if A["F"][f][0] != D.FREE or A["F"][f][1] or not st.eligible_f(f, tid):
+                                continue
+                            for w in free_ws:
+                                if A["W"][w][1] or not st.eligible_w(w, tid) or st.w_fskill(w, f) <= TOL:
+                                    continue
+                                pair = (f, w)
+                                break
+                            if pair:
+                                break
+                        if pair is None:
+                            all_ok = False
+                            break
+                        witness = (wid_, pair)
+                    res.count("unplaced_component_checked")
+                    if all_ok and witness is not None:
+                        res.add("idle_pair", "C06.idle_pair.component_not_placed",
+                                "working step %d: component %s of READY facility task %s is placed nowhere although workplace %s has room for it "
+                                "and its facility %s and worker %s are both FREE and eligible" % (k, cid, tid, witness[0], witness[1][0], witness[1][1]), k)
+                    continue
                 if placed is None or placed not in st.wp:
                     continue
                 ws, fs = AT[tid][2], AT[tid][3]
